@@ -89,8 +89,8 @@ def run_case(case) -> list[Failure]:
     if any(not all(33 <= ord(c) < 127 and c not in ":()<>@,;\\\"/[]?={}" for c in p[0]) or any(c in p[1] for c in "\r\n\0") or p[1] != p[1].strip() for p in hdrs):
         raise core.InvalidCase
     lower_names = [p[0].lower() for p in hdrs]
-    if case["mode"] in ("req-dict", "mgr", "both") and len(set(lower_names)) != len(lower_names):
-        raise core.InvalidCase  # a plain dict with case-colliding keys is documented as undefined
+    if case["mode"] in ("req-dict", "mgr", "both") and len({p[0] for p in hdrs}) != len(hdrs):
+        raise core.InvalidCase  # identical keys collapse in a plain dict (two SPELLINGS of a name are two keys, two lines)
     if any(n in ("host", "content-length", "transfer-encoding", "connection", "accept-encoding") for n in lower_names):
         raise core.InvalidCase
     rm = case.get("rm")  # None = default, or list of names
@@ -317,6 +317,15 @@ def enum_cases(tier):
                                 hops.append((os_[i], code, fs[(k + i) % len(fs)], os_[i + 1]))
                             hdrs = [[casing(n, (0, 0xFFFFF, 0b1010101)[k % 3]), "secret-%d" % i] for i, n in enumerate(names)] + BENIGN[:nbenign]
                             yield {"kind": "cred", "entry": entry, "graph": chain(hops), "mode": mode, "headers": hdrs, "rm": None, "rm_place": None}
+    # the same sensitive field under two spellings (two keys of a plain dict, two lines of an HTTPHeaderDict)
+    for x in (1, 2, 3):
+        for name in SENSITIVE:
+            for mode in MODES:
+                for entry in ("pm", "proxy"):
+                    for code in (302, 307):
+                        k += 1
+                        hdrs = [[name, "secret-1"], [name.lower() if name.lower() != name else name.upper(), "secret-2"]] + BENIGN[: k % 2]
+                        yield {"kind": "cred", "entry": entry, "graph": chain([(0, code, "abs", x), (x, code, "path", x)]), "mode": mode, "headers": hdrs, "rm": None, "rm_place": None}
     # custom / empty remove_headers_on_redirect
     for rm in ([], ["X-Secret"], ["x-secret", "Authorization"], ["COOKIE"], ["Cookie", "Authorization", "X-SECRET"]):
         for place in ("request", "manager"):
@@ -349,8 +358,11 @@ def _hyp():
         names = draw(st.lists(st.sampled_from(SENSITIVE + ["X-Secret"]), min_size=1, max_size=3, unique=True))
         mode = draw(st.sampled_from(MODES))
         hdrs = [[casing(nm, draw(st.integers(0, 2**19))), "v%d" % i] for i, nm in enumerate(names)]
-        if mode in ("req-hd", "mgr-hd") and draw(st.booleans()):
-            hdrs.append([casing(names[0], draw(st.integers(0, 2**19))), "again"])  # repeated field, other casing
+        if draw(st.booleans()):
+            again = casing(names[0], draw(st.integers(0, 2**19)))
+            # repeated field in another casing; in a plain dict two spellings are two keys (an identical spelling would collapse)
+            if mode in ("req-hd", "mgr-hd") or again != hdrs[0][0]:
+                hdrs.append([again, "again"])
         hdrs += draw(st.lists(st.sampled_from(BENIGN), max_size=3, unique_by=lambda p: p[0]))
         order = draw(st.permutations(list(range(len(hdrs)))))
         hdrs = [hdrs[i] for i in order]
